@@ -828,6 +828,56 @@ def run(ctx):
             "table: is_route True, 405 instead of 404); outside the "
             "property's quantifier, not judged (theorem "
             "C19_is_route_empty_mask_refuted)" % runner.ghost_seen)
+    # a registration or removal made while a request is being served (by a
+    # hook) takes effect at once: the hook lists a request walks through are
+    # the registered ones at the moment of each call
+    from implrun import new_app
+    for kind, mode in itertools.product(("before", "after"),
+                                        ("pop-later", "add-later")):
+        app = new_app()
+        seen = []
+
+        def mk(name):
+            if kind == "before":
+                def hook(req):
+                    seen.append(name)
+            else:
+                def hook(req, res):
+                    seen.append(name)
+                    return res
+            hook.__name__ = name
+            return hook
+        later, extra = mk("later"), mk("extra")
+        add = app.add_before_response if kind == "before" \
+            else app.add_after_response
+        pop = app.pop_before_response if kind == "before" \
+            else app.pop_after_response
+
+        def first(req, res=None):
+            seen.append("first")
+            if mode == "pop-later":
+                pop(later)
+            else:
+                add(extra)
+            return res
+        add(first)
+        add(later)
+        app.set_route("/x", lambda req: seen.append("endpoint") or "ok")
+        ans = call(app, environ("GET", "/x"))
+        hooks = ["first"] if mode == "pop-later" \
+            else ["first", "later", "extra"]
+        want = hooks + ["endpoint"] if kind == "before" \
+            else ["endpoint"] + hooks
+        view = [f.__name__ for f in
+                (app.before if kind == "before" else app.after)]
+        ctx.case(("registration-during-request", kind, mode), True,
+                 {"hooks": kind, "mode": mode, "ran": list(seen)})
+        ctx.count("registration during a request")
+        if ans.raised is not None or seen != want or view != hooks:
+            ctx.violation("registration-during-request-not-effective", {
+                "hooks": kind, "mode": mode, "ran": list(seen),
+                "expected": want, "registered_afterwards": view,
+                "raised": repr(ans.raised)})
     return ctx.finish(
         "call sequences over the op pool of the property: every family "
         "(hooks, static routes, group+regular routes, defaults, status "
